@@ -85,7 +85,7 @@ def specItems (imp : String) (fs : List String) (recs : List Rec) : Option (List
     | [c, fd] => fd.toInt?.map (fun fd => Spec.Import.viac c fd (recs.map (fun r => (fldD r 0, fldD r 1))))
     | _ => none
   | "ch.swissquote" => some (Spec.Import.swissquote recs)
-  | "us.interactivebrokers" => some (Spec.Import.interactivebrokers (importAccount fs) recs)
+  | "us.interactivebrokers" => some (Spec.Import.interactivebrokers recs)
   | _ => none
 
 /-- items as the harness' own row reader states them:
